@@ -745,12 +745,20 @@ class Grammar(Model):
         if directives:
             directives += '\n'
 
+        # NOTE: the open form of @@keyword takes every word that is not followed
+        #   by ':' or '=': the name of a first rule with parameters or a base
+        #   would be read as one more keyword, so the closed form is written
+        first = str(self.rules[0]._pretty(lean=lean)) if self.rules else ''
+        header = first.split('\n', 1)[0].lstrip().removeprefix(self.rules[0].name).lstrip() if self.rules else ''
+        closed = bool(self.rules) and not first.lstrip().startswith('@') and header[:1] not in (':', '=')
+
         keywordsets = []
         batch: list[str] = []
         bfmt: str = ""
         for k in sorted(repr(k) for k in self.keywords):
             batch += [k]
-            bfmt = f"@@keyword :: {' '.join(batch)}"
+            words = ' '.join(batch)
+            bfmt = f"@@keyword :: ({words})" if closed else f"@@keyword :: {words}"
             if len(bfmt) >= PEP8_LLEN - 8:
                 keywordsets += [bfmt]
                 batch = []
